@@ -87,6 +87,12 @@ func (r *DeviceLocal) HandleEvent(payload api.EventPayload) {
 		return
 	}
 
+	// the event may stem from a message that was still in flight on a connection
+	// which has been removed (and replaced by a new connection) in the meantime
+	if payload.Device != nil && payload.Device != remoteDevice {
+		return
+	}
+
 	// the codefactor warning is invalid, as .(type) check can not be replaced with if then
 	//revive:disable-next-line
 	switch payload.Data.(type) {
